@@ -352,7 +352,7 @@ func (c *Ctx) execInstr(fr *Frame, b *ssa.BasicBlock, idx int, in ssa.Instructio
 		switch u := x.X.Type().Underlying().(type) {
 		case *types.Slice:
 			c.safetyOblige(st, fr, in, "index", "slice index in range", "(and (<= 0 "+i.S+") (< "+i.S+" (slen "+base.S+")))")
-			c.bind(st, fr, x, T{S: c.define(st, "ea", "Addr", fmt.Sprintf("(elem (sarr %s) (+ (soff %s) %s))", base.S, base.S, i.S)), So: "Addr", Ty: x.Type(), Fresh: base.Fresh, NonNil: true})
+			c.bind(st, fr, x, T{S: c.define(st, "ea", "Addr", fmt.Sprintf("(elem (sarr %s) (ix (soff %s) %s))", base.S, base.S, i.S)), So: "Addr", Ty: x.Type(), Fresh: base.Fresh, NonNil: true})
 		case *types.Pointer:
 			arr := u.Elem().Underlying().(*types.Array)
 			if !base.Fresh && !base.NonNil {
@@ -416,7 +416,7 @@ func (c *Ctx) execInstr(fr *Frame, b *ssa.BasicBlock, idx int, in ssa.Instructio
 	case *ssa.MakeSlice:
 		ln := c.valueOf(st, fr, x.Len)
 		cp := c.valueOf(st, fr, x.Cap)
-		c.safetyOblige(st, fr, in, "make-size", "make([]T, len, cap) size in range", fmt.Sprintf("(and (<= 0 %s) (<= %s %s) (<= %s %s))", ln.S, ln.S, cp.S, cp.S, c.eng.makeLimit))
+		c.safetyOblige(st, fr, in, "make-size", "make([]T, len, cap) size in range", fmt.Sprintf("(and (<= 0 %s) (<= %s %s) (<= %s %s))", ln.S, ln.S, cp.S, cp.S, makeCapLimit(x.Type().Underlying().(*types.Slice).Elem())))
 		elemT := x.Type().Underlying().(*types.Slice).Elem()
 		arr := c.allocArray(st, elemT, cp.S)
 		so := "Slice"
@@ -829,7 +829,7 @@ func (c *Ctx) execConvert(st *State, fr *Frame, x *ssa.Convert) {
 		n := c.declare(st, "str", "Str")
 		st.assume("(= (slen_ " + n + ") (slen " + v.S + "))")
 		m := c.mem(st, leafKey("Int"))
-		st.assume("(forall ((i Int)) (! (=> (and (<= 0 i) (< i (slen " + v.S + "))) (= (sat_ " + n + " i) (select " + m + " (elem (sarr " + v.S + ") (+ (soff " + v.S + ") i))))) :pattern ((sat_ " + n + " i))))")
+		st.assume("(forall ((i Int)) (! (=> (and (<= 0 i) (< i (slen " + v.S + "))) (= (sat_ " + n + " i) (select " + m + " (elem (sarr " + v.S + ") (ix (soff " + v.S + ") i))))) :pattern ((sat_ " + n + " i))))")
 		c.bind(st, fr, x, T{S: n, So: "Str", Ty: to})
 	case fso == "Int" && tso == "Str":
 		n := c.declare(st, "str", "Str")
